@@ -28,7 +28,7 @@ NewRef == {[k |-> "new", y |-> y, m |-> m, rd |-> rd, ovf |-> ovf] :
 YmWithRoutes == {[k |-> "with", recv |-> rv, p |-> p, ovf |-> ovf] :
                    rv \in {YMV(2020, 5, 1), YMV(2020, 1, 31), YMV(275760, 9, 13)},
                    p \in {[month |-> 7], [year |-> 2021], [monthCode |-> "M02"], [month |-> 2, monthCode |-> "M02"], [year |-> 2020, month |-> 5]}, ovf \in Ovfs}
-QYmRoutes == YmStrRoutes \cup YmDateRoutes \cup YmPartialRoutes \cup NewNoRef \cup NewRef \cup YmWithRoutes
+QYmRoutes == YmStrRoutes \cup YmDateRoutes \cup YmPartialRoutes \cup NewNoRef \cup NewRef \cup YmWithRoutes \cup {[k |-> "default"]}
 
 \* the routes to one year-month (dt = a date in it), compared pairwise: all must give the same value except the explicit references
 RoutesTo(dt, dt2) ==
@@ -55,13 +55,14 @@ MdDateRoutes == {[k |-> "date", d |-> dt] : dt \in UNION {DaysOfMonth(2020, m, 1
 MdNewNoRef == {[k |-> "new", m |-> m, d |-> d, ovf |-> ovf] : m \in {0, 1, 2, 4, 6, 9, 11, 12, 13, 255}, d \in {0, 1, 28, 29, 30, 31, 32, 255}, ovf \in Ovfs}
 MdNewRef == {[k |-> "new", m |-> m, d |-> d, ry |-> ry, ovf |-> ovf] :
                m \in {0, 2, 4, 9, 10, 13}, d \in {0, 1, 13, 14, 19, 28, 29, 30, 31}, ry \in {1972, 2021, 2024, 1900, 2000, -271821, 275760, 275761, I32Max, I32Min}, ovf \in Ovfs}
-QMdRoutes == MdStrRoutes \cup MdFullStrRoutes \cup MdDateRoutes \cup MdNewNoRef \cup MdNewRef
+\* (the value a default-constructed month-day / year-month is: one more route to 01-01 / 1970-01, canonical like the others)
+QMdRoutes == MdStrRoutes \cup MdFullStrRoutes \cup MdDateRoutes \cup MdNewNoRef \cup MdNewRef \cup {[k |-> "default"]}
 MdRoutesTo(m, d) ==
   {[k |-> "str", f |-> "MM-DD", m |-> m, d |-> d], [k |-> "str", f |-> "--MMDD", m |-> m, d |-> d],
    [k |-> "date", d |-> Date(2020, m, d)], [k |-> "date", d |-> Date(2024, m, d)],
    [k |-> "new", m |-> m, d |-> d, ovf |-> "reject"], [k |-> "new", m |-> m, d |-> d, ry |-> 1972, ovf |-> "reject"],
    [k |-> "new", m |-> m, d |-> d, ry |-> 2024, ovf |-> "reject"]}
-QMdCmpRoutes == MdRoutesTo(2, 29) \cup MdRoutesTo(2, 28) \cup MdRoutesTo(12, 31)
+QMdCmpRoutes == MdRoutesTo(2, 29) \cup MdRoutesTo(2, 28) \cup MdRoutesTo(12, 31) \cup MdRoutesTo(1, 1) \cup {[k |-> "default"]}
 
 (* ---- arithmetic ---- *)
 QReceivers == {YMV(2019, 12, 1), YMV(2020, 1, 1), YMV(2020, 2, 1), YMV(2021, 6, 1), YMV(0, 1, 1), YMV(-1, 12, 1),
